@@ -248,28 +248,38 @@ func (cr *ctxReplayer) runSeq(v ctxVec, run string) {
 	rt.MustHandle("GET", "/m/{y}", hManual(false))
 	rt.MustHandle("GET", "/mc/{y}", hManual(true))
 	rt.MustHandle("GET", "/ic/{x}/", hClone, fox.WithIgnoreTrailingSlash(true))
-	rt.MustHandle("GET", "{h}.example/hd/{x}", h)
-	rt.MustHandle("GET", "{h}.example/hi/{x}/", h, fox.WithIgnoreTrailingSlash(true))
-	// a route below a static hostname: its handler routes another request by hand, through the hostname tree, while
-	// its own context is in use; what it observes of its own request must be the same before and after
-	rt.MustHandle("GET", "static.example/hs/{x}", func(c fox.Context) {
-		before := observeCtx(c)
-		for _, target := range []string{"/hd/", "/hi/", "/p/"} {
-			inner, _ := newRequest("GET", "other"+cur+".example", target+"other"+cur, "q=other"+cur)
-			if _, cc, _ := c.Fox().Lookup(c.Writer(), inner); cc != nil {
-				_ = observeCtx(cc)
-				cc.Close()
+	// hostname routes switch the whole method tree to hostname mode (every request then goes through the hostname walk
+	// first): they are registered only for sequences that use them, so that the other sequences exercise the path-only mode
+	needsHost := false
+	for _, st := range v.Steps {
+		if st.Shape == "hostdirect" || st.Shape == "hosttsr" || st.Shape == "statichost" {
+			needsHost = true
+		}
+	}
+	if needsHost {
+		rt.MustHandle("GET", "{h}.example/hd/{x}", h)
+		rt.MustHandle("GET", "{h}.example/hi/{x}/", h, fox.WithIgnoreTrailingSlash(true))
+		// a route below a static hostname: its handler routes another request by hand, through the hostname tree, while
+		// its own context is in use; what it observes of its own request must be the same before and after
+		rt.MustHandle("GET", "static.example/hs/{x}", func(c fox.Context) {
+			before := observeCtx(c)
+			for _, target := range []string{"/hd/", "/hi/", "/p/"} {
+				inner, _ := newRequest("GET", "other"+cur+".example", target+"other"+cur, "q=other"+cur)
+				if _, cc, _ := c.Fox().Lookup(c.Writer(), inner); cc != nil {
+					_ = observeCtx(cc)
+					cc.Close()
+				}
 			}
-		}
-		after := observeCtx(c)
-		if !sameObs(before, after) {
-			after.Err = "the handler's own context changed while it routed another request by hand"
-			obsNow = &after
-		} else {
-			obsNow = &before
-		}
-		dirty(c, cur)
-	})
+			after := observeCtx(c)
+			if !sameObs(before, after) {
+				after.Err = "the handler's own context changed while it routed another request by hand"
+				obsNow = &after
+			} else {
+				obsNow = &before
+			}
+			dirty(c, cur)
+		})
+	}
 	var kept []keptClone
 	var shapes []string
 	for i, st := range v.Steps {
